@@ -86,6 +86,40 @@ Definition set_field_norm (o : nopts) (cfg : value) (name : string) (ov : option
        | _, _ => Err EDuplicateKey (path_of "" name)
        end.
 
+(* normalizeMapInto visits the keys of a map in sorted order, whatever the order in which the
+   runtime enumerates them: entries are listed in enumeration order, [kv_sort] orders them by
+   name (bytewise), and a key that is no string fails the whole map before anything is set *)
+Definition nres := res (value * option string).
+Fixpoint kv_insert (k : string) (x : nres) (l : list (string * nres)) : list (string * nres) :=
+  match l with
+  | [] => [(k, x)]
+  | (k2, y) :: r => if String.leb k k2 then (k, x) :: l else (k2, y) :: kv_insert k x r
+  end.
+Fixpoint kv_sort (l : list (string * nres)) : list (string * nres) :=
+  match l with
+  | [] => []
+  | (k, x) :: r => kv_insert k x (kv_sort r)
+  end.
+Fixpoint kv_names (l : list (gkey * nres)) : option (list (string * nres)) :=
+  match l with
+  | [] => Some []
+  | (KStr n, x) :: r => match kv_names r with Some t => Some ((n, x) :: t) | None => None end
+  | (KOther, _) :: _ => None
+  end.
+Fixpoint set_fields_norm (o : nopts) (cfg : value) (l : list (string * nres)) : res value :=
+  match l with
+  | [] => Ok cfg
+  | (name, x) :: r =>
+    y <- x ;;
+    cfg' <- set_field_norm o cfg name (snd y) (fst y) ;;
+    set_fields_norm o cfg' r
+  end.
+Definition map_into (o : nopts) (cfg : value) (ys : list (gkey * nres)) : res value :=
+  match kv_names ys with
+  | None => Err EKeyTypeNotString ""
+  | Some l => set_fields_norm o cfg (kv_sort l)
+  end.
+
 Section Norm.
   Variable o : nopts.
 
@@ -113,18 +147,12 @@ Section Norm.
     | GMap ok kvs =>
       if negb ok then Err EKeyTypeNotString ""
       else
-        c <- (fix go (cfg : value) (l : list (gkey * gval)) : res value :=
-                match l with
-                | [] => Ok cfg
-                | (k, x) :: r =>
-                  match k with
-                  | KOther => Err EKeyTypeNotString ""
-                  | KStr name =>
-                    y <- normalize_value x ;;
-                    cfg' <- set_field_norm o cfg name (snd y) (fst y) ;;
-                    go cfg' r
-                  end
-                end) empty_cfg kvs ;;
+        c <- map_into o empty_cfg
+               ((fix go (l : list (gkey * gval)) : list (gkey * nres) :=
+                   match l with
+                   | [] => []
+                   | (k, x) :: r => (k, normalize_value x) :: go r
+                   end) kvs) ;;
         Ok (c, None)
     | GStruct fs =>
       c <- (fix into (cfg : value) (l : list (string * string * gval)) {struct l} : res value :=
@@ -152,15 +180,12 @@ Section Norm.
                   | GMap ok kvs =>
                     if negb ok then Err EKeyTypeNotString ""
                     else
-                      cfg' <- (fix go (cfg : value) (l : list (gkey * gval)) : res value :=
-                                 match l with
-                                 | [] => Ok cfg
-                                 | (KOther, _) :: _ => Err EKeyTypeNotString ""
-                                 | (KStr name, x2) :: r2 =>
-                                   y <- normalize_value x2 ;;
-                                   cfg' <- set_field_norm o cfg name (snd y) (fst y) ;;
-                                   go cfg' r2
-                                 end) cfg kvs ;;
+                      cfg' <- map_into o cfg
+                                ((fix go (l : list (gkey * gval)) : list (gkey * nres) :=
+                                    match l with
+                                    | [] => []
+                                    | (k, x2) :: r2 => (k, normalize_value x2) :: go r2
+                                    end) kvs) ;;
                       into cfg' r
                   | _ => Err ETypeMismatch ""            (* raiseSquashNeedsObject *)
                   end
